@@ -15,9 +15,7 @@ import numpy as np
 
 from harness import classify, gen, progcheck as PC, programs as P
 
-KNOWN = ("swv-layout-drift", "take-through-broadcast", "minmax-zero-size", "slice-through-generic-blockwise")
-
-
+KNOWN = ("swv-layout-drift", "take-through-broadcast", "minmax-zero-size", "slice-through-generic-blockwise", "swv-nested-wrong-values", "broadcast-axis-zero-width-chunk")
 def rechunked_variant(rng, prog):
     """Same program, different source chunkings (the property quantifies over chunkings)."""
     q = copy.deepcopy(prog)
@@ -42,7 +40,10 @@ def lean_correspondence(ctx, progs):
         if exc is not None:
             continue
         x = env[prog[-1]["out"]]
-        if any(np.isnan(c) for ax in x.chunks for c in ax):
+        try:
+            if any(np.isnan(c) for ax in x.chunks for c in ax):
+                continue
+        except Exception:  # lazily resolved chunks may raise (reported by the value search, not here)
             continue
         by_req[tok] = prog
         reqs.append((f"ex.eval {tok}", "ok " + PC.f_arr(want)))
@@ -140,3 +141,5 @@ def run(ctx, replay=None):
     by_req = ctx.extra.pop("_by_req", {})
     for d in ctx.disagreements:
         d["program"] = by_req.get(d["request"].split(" ", 1)[1])
+    from harness.props_ext import c01_expr2  # phase 3: second-layer model (Props/C01Ext.lean, C01Derived.lean; ex2.*)
+    c01_expr2.run_ext(ctx, corr)
